@@ -178,6 +178,17 @@ func (c *Collector) Params() testscript.Params {
 				r.EnvNames = names
 				mu.Unlock()
 			},
+			"t-abort": func(ts *testscript.TestScript, neg bool, args []string) {
+				// ends the run through the script's own T, not through the script language
+				if t, ok := tOf.Load(ts.Name()); ok {
+					if args[0] == "skip" {
+						t.(testscript.T).Skip("custom command skips the test")
+					}
+					t.(testscript.T).Log("custom command fails the test")
+					t.(testscript.T).FailNow()
+				}
+				ts.Fatalf("t-abort: no T captured for %s", ts.Name())
+			},
 			"defer-mark": func(ts *testscript.TestScript, neg bool, args []string) {
 				var n int
 				fmt.Sscan(args[0], &n)
